@@ -241,7 +241,8 @@ def private_storage_rule(ctx, rule, what):
     reg = errflow.Registry(prog)
     with open(os.path.join(VERIF, "spec", "C11.json")) as fh:
         exc = json.load(fh).get("shared_write_exceptions", {})
-    exported = [f for f in prog.fns_in(OV) if not f.static]
+    # the entry points of the library, plus the helpers of compat.c it exports to programs built with it
+    exported = [f for f in prog.fns_in(OV) if not f.static] + [f for f in prog.fns_in("src/compat.c") if not f.static]
     reach = [prog.functions[k] for k in errflow.reachable_from(prog, reg, exported)]
     n = 0
     for (name, tls), sites in sorted(shared_static_writes(prog, eff, reach).items()):
